@@ -148,6 +148,16 @@ reg("C42","fsfault","exploration","real local endpoint with force-poll watching:
     "polling interval 1 s, accelerated scans: after every changing Transition the next Scan (immediately and at offsets across the polling tick) equals the walker's view of the quiescent disk; external edits and immediate reversals of a transition make Poll return within 2 intervals + control-relative slack.",
     "'eventually notices' restated as a bound relative to a heartbeat; unhealthy heartbeat = inconclusive")
 
+reg("C21","remote","exploration","differential runtime comparison: the same random endpoint program on a local endpoint and on client<->server over a fragmenting in-memory pipe; race detector on",
+    "mirrored roots; four real endpoints per program (local and remote alpha/beta, none/deflate compression, random valid configurations); steps: mirrored disk edits, Scan (walked/previous/foreign ancestors), Stage (incl. wrong digests, missing sources, empty requests, misuse), Supply, Transition planned with the real Reconcile (incl. stale plans); large-snapshot and root-kind programs: snapshots (proto.Equal incl. counters/flags), required paths, signatures, captured transmissions, results, problems (multiset), missing-files flag and error presence must be equal.",
+    "error values are compared for presence; texts after normalizing per-side root and session id; requests whose answer depends on Go map order are not issued; a FIFO at a staged path (blocks openat, outside this property) is avoided")
+reg("C22","remote","exploration","event-driven starvation oracle on a fragmenting pipe that knows when its reader is blocked; race detector on",
+    "the writer/reader stacks are built exactly as the endpoints build them (encoder, bufio, compressor, bufio, multi-flusher), both algorithms, real protocol message types from empty to >= 1 MiB with random flush points: after each flush every written message must be decoded before the reader blocks on an empty pipe; decoded sequence equals written sequence; declared sizes above the limit are rejected without reading or allocating the body (liveness control: a legal 32 MiB prefix).",
+    "no timeout is involved in the verdict; acceptance exactly at the limit is not asserted")
+reg("C37","remote","exploration","pruned product of configuration domains through the real creation handler, reference merge, and real endpoint initialization",
+    "per-field cubes, the full permission-group product, all slot pairs and random combinations (1.7*10^5 quick) for session, alpha and beta configurations: what the real Server.Create accepts must merge (protoreflect reference: endpoint value unless default, ignores concatenated) into configurations that pass EnsureValid(false), that the real local.NewEndpoint and the real remote handshake accept (about 450 combinations x 2 sides), with no executable default file mode under portable permissions; every supported mode round-trips through text.",
+    "candidates are pre-filtered with Configuration.EnsureValid and every violation is confirmed against the real handler")
+
 NOT_APPLICABLE = {}
 def main():
     props=[json.loads(l)["id"] for l in open("/verif/properties.jsonl")]
